@@ -431,7 +431,7 @@ class C12(Check):
                 if (base is BASE_T) != engine:
                     continue
                 yield {"base": base, "ops": ops, "cache_size": 64, "engine": engine, "ml": False, "ms": True, "allow_empty": False}
-        n = 160 if tier == "quick" else 4000
+        n = 110 if tier == "quick" else 4000
         for _ in range(n):
             engine = rng.random() < 0.5
             if rng.random() < 0.5:
